@@ -72,7 +72,13 @@ def structural_check(ctx: fw.Ctx) -> None:
 class GateRun:
     """One scenario: kinds = [(indexed?, [uids fed before LISTED], [uids fed after])], rounds of orchestration."""
 
-    def __init__(self, kinds: list[dict], limit: int | None) -> None:
+    def __init__(self, kinds: list[dict], limit: int | None, raise_spec: dict | None = None) -> None:
+        self.raise_spec = dict(raise_spec or {})
+        self.when_calls: dict[str, int] = {}
+        self.raising: set[str] = set()
+        self.raised_uids: set[str] = set()
+        self.index_returned: set[str] = set()
+        self.indexed_ok: set[str] = set()
         import kopf
         from kopf._cogs.aiokits import aiotoggles
         from kopf._cogs.clients import watching
@@ -126,8 +132,18 @@ class GateRun:
             self.uids.append(uid)
         return self.uids.index(uid)
 
+    def _when(self, uid: str, **_: Any) -> bool:
+        mode = self.raise_spec.get(uid)
+        if mode is not None:
+            self.when_calls[uid] = self.when_calls.get(uid, 0) + 1
+            if mode == 'always' or self.when_calls[uid] == 1:
+                self.events.append(('filter-raised', uid, uid not in self.indexed_ok))
+                self.raised_uids.add(uid)
+                raise ValueError('scripted failure of a when= callback of an index handler')
+        return True
+
     def _index_fn(self, kopf: Any, i: int) -> None:
-        @kopf.index(f'kind{i}s', id=f'idx{i}', registry=self.registry)
+        @kopf.index(f'kind{i}s', id=f'idx{i}', registry=self.registry, when=self._when)
         async def fn(uid: str, **_: Any) -> Any:
             self.events.append(('indexfn', i, uid))
             return {'all': uid}
@@ -163,9 +179,19 @@ class GateRun:
         real_index_resource = m['indexing'].index_resource
 
         async def index_resource(**kw: Any) -> Any:
-            res = await real_index_resource(**kw)
             uid = kw['body']['metadata']['uid']
             tg, _ = run.worker_info.get(uid, (False, False))
+            try:
+                res = await real_index_resource(**kw)
+            except Exception:
+                # with a toggle: the label is emitted when the `finally` of process_resource_event drops it
+                if tg:
+                    run.raising.add(uid)
+                else:
+                    run.labels.append(f'IndexRaised {cq.cnat(run.onum(uid))}')
+                raise
+            run.indexed_ok.add(uid)
+            run.index_returned.add(uid)
             if not tg:
                 run.labels.append(f'Indexed {cq.cnat(run.onum(uid))}')
             return res
@@ -176,11 +202,12 @@ class GateRun:
         def worker(**kw: Any) -> Any:
             resource, uid = kw['key']
             o = run.onum(uid)
+            run.indexed_ok.discard(uid)
             tg, gt = kw.get('resource_indexed') is not None, kw.get('operator_indexed') is not None
             run.worker_info[uid] = (tg, gt)
             run.streams[run.rnum[resource]] = kw['streams']
             if tg:
-                run.toggle_label[id(kw['resource_indexed'])] = ('Indexed', o)
+                run.toggle_label[id(kw['resource_indexed'])] = ('Indexed', o, uid)
             run.labels.append(f'Spawn {cq.cnat(run.rnum[resource])} {cq.cnat(o)} {cq.cbool(tg)} {cq.cbool(gt)}')
 
             async def wrapped() -> None:
@@ -230,7 +257,12 @@ class GateRun:
             lab = run.toggle_label.get(id(toggle))
             if lab is None:
                 raise RuntimeError('observation point missing: unknown toggle dropped')
-            run.labels.append(' '.join([lab[0]] + [cq.cnat(x) for x in lab[1:]]))
+            if lab[0] == 'Indexed':
+                name = 'IndexRaised' if lab[2] in run.raising else 'Indexed'
+                run.raising.discard(lab[2])
+                run.labels.append(f'{name} {cq.cnat(lab[1])}')
+            else:
+                run.labels.append(' '.join([lab[0]] + [cq.cnat(x) for x in lab[1:]]))
             return res
 
         def is_on() -> bool:
@@ -312,7 +344,7 @@ def run_scenario(ctx: fw.Ctx, sc: dict, cases: list[fw.Case]) -> None:
     """sc = {kinds: [{indexed, early: [uids], late: [uids]}], limit, order: [kind index per feeding step],
              rounds: [[kinds of round 1], [added in round 2], ...], round2_at: step index, settle: [bool per step]}"""
     kinds, limit = sc['kinds'], sc['limit']
-    g = GateRun(kinds, limit)
+    g = GateRun(kinds, limit, sc.get('raise'))
     try:
         scripts = {i: [(None, u) for u in k['early']] + ['LISTED'] + [('ADDED', u) for u in k['late']] for i, k in enumerate(kinds)}
         rounds = sc.get('rounds') or [list(range(len(kinds)))]
@@ -340,16 +372,20 @@ def run_scenario(ctx: fw.Ctx, sc: dict, cases: list[fw.Case]) -> None:
             npass_seen = check_passes(g, kinds, first_round, npass_seen, violations)
         g.idle(0.5)
         npass_seen = check_passes(g, kinds, first_round, npass_seen, violations)
+        for k, uid in sc.get('again', []):          # later events of objects already seen (after their workers idled out)
+            g.idle(15)
+            g.feed(k, ('MODIFIED', uid))
+            fed.append((k, ('MODIFIED', uid)))
         # everything fed; let idle workers retire and see whether the gate ever opens
         all_fed = all(pos[k] >= len(scripts[k]) for k in started)
         g.idle(20)
         npass_seen = check_passes(g, kinds, first_round, npass_seen, violations)
         labels = list(g.labels)
         real_on = g.ts.is_on()
-        passed = {(k, u) for e, k, u in g.events if e == 'pass'}
+        passed = {(e[1], e[2]) for e in g.events if e[0] == 'pass'}
         fed_objs = {(k, it[1]) for k, it in fed if it != 'LISTED'}
         data = {'kinds': kinds, 'limit': limit, 'order': sc['order'], 'rounds': rounds, 'round2_at': sc.get('round2_at'),
-                'settle': sc.get('settle'), 'labels': labels}
+                'settle': sc.get('settle'), 'raise': sc.get('raise'), 'again': sc.get('again'), 'labels': labels}
         # ---- T: the acceptor
         tr = cq.clist(f'({x})' for x in labels)
         cases.append(fw.Case(f'opt_eqb Nat.eqb (gaccept {c_limit(limit)} ginit {tr} 0%nat) None '
@@ -359,11 +395,13 @@ def run_scenario(ctx: fw.Ctx, sc: dict, cases: list[fw.Case]) -> None:
         rs = sorted(started)
         uid_kind = {u: i for i, k in enumerate(kinds) for u in k['early'] + k['late']}
         earlies = []
+        seen_spawn: set[str] = set()
         for lab in labels:
             if lab.startswith('Spawn '):
                 o = int(lab.split()[2].replace('%nat', ''))
                 uid = g.uids[o]
-                earlies.append((o, kinds[uid_kind[uid]]['indexed'] and uid in kinds[uid_kind[uid]]['early']))
+                earlies.append((o, uid not in seen_spawn and kinds[uid_kind[uid]]['indexed'] and uid in kinds[uid_kind[uid]]['early']))
+                seen_spawn.add(uid)
                 ctx.count('gate_early', str(earlies[-1][1]))
         live = [len(g.streams.get(r_, {})) for r_ in rs]
         judge_open = all_fed and all(k in fed_listed for k in started)
@@ -386,10 +424,13 @@ def run_scenario(ctx: fw.Ctx, sc: dict, cases: list[fw.Case]) -> None:
             ctx.fail('handlers could start before every indexed kind was listed and indexed once', mon, observed=v, sig='gate-early-pass')
         n_early = {i: len([1 for lab in labels if lab.startswith(f'Spawn {cq.cnat(i)} ') and lab.split()[3] == 'true'])
                    for i in range(len(kinds))}     # objects of the kind that were first seen before readiness (toggle made)
-        if all_fed and all(k in fed_listed for k in started) and fed_objs - passed:
+        # objects whose every index_resource call raised legitimately never reach process_resource_causes
+        must_pass = {(k, u) for k, u in fed_objs if u in g.index_returned or u not in g.raised_uids}
+        if all_fed and all(k in fed_listed for k in started) and must_pass - passed:
             ctx.fail('the readiness gate never opens: objects were indexed but no handler-side processing ever starts',
-                     {**mon, 'n_first_seen': {str(i): n for i, n in n_early.items()}},
-                     observed={'never_passed': sorted(map(list, fed_objs - passed)), 'toggles_left': len(g.ts)}, sig='gate-never-opens')
+                     {**mon, 'n_first_seen': {str(i): n for i, n in n_early.items()},
+                      'filter_raised_in_initial_indexing': sorted({u for e, u, first in g.events if e == 'filter-raised' and first})},
+                     observed={'never_passed': sorted(map(list, must_pass - passed)), 'toggles_left': len(g.ts)}, sig='gate-never-opens')
             ctx.count('gate_outcome', 'never-opens')
         elif all_fed:
             ctx.count('gate_outcome', 'opens')
@@ -406,7 +447,7 @@ def check_passes(g: GateRun, kinds: list[dict], first_round: set[int], seen: int
     LISTED has been through its index function."""
     passes = [e for e in g.events if e[0] == 'pass']
     if len(passes) > seen:
-        indexed_uids = {u for e, _, u in g.events if e == 'indexfn'}
+        indexed_uids = {e[2] for e in g.events if e[0] == 'indexfn'}
         for i in first_round:
             if not kinds[i]['indexed']:
                 continue
@@ -414,7 +455,7 @@ def check_passes(g: GateRun, kinds: list[dict], first_round: set[int], seen: int
             if g.consumed.get(i, 0) < n_before_listed:
                 violations.append(f'pass of {passes[seen][1:]} while kind {i} was not listed yet')
                 break
-            missing = [u for u in kinds[i]['early'] if u not in indexed_uids]
+            missing = [u for u in kinds[i]['early'] if u not in indexed_uids and u not in g.raised_uids]   # indexed, or its indexing raised
             if missing:
                 violations.append(f'pass of {passes[seen][1:]} while {missing} of kind {i} were not indexed yet')
                 break
@@ -464,6 +505,10 @@ CORPUS = [
     {'kinds': mk_kinds([(True, 2, 1), (False, 2, 1)]), 'limit': None, 'order': [1, 1, 0, 1, 0, 0, 1, 0]},
     {'kinds': mk_kinds([(True, 1, 1), (True, 1, 1)]), 'limit': None, 'order': [0, 0, 1, 0, 1, 1], 'rounds': [[0], [1]], 'round2_at': 2},
     {'kinds': mk_kinds([(True, 1, 2), (True, 1, 0)]), 'limit': None, 'order': [0, 0, 0, 1, 0, 1], 'rounds': [[0], [1]], 'round2_at': 3},
+    # F1702 (fixed by c050920) regression cases: the when= callback of the index handler raises for one of two pre-existing
+    # objects — always, or only on its first call; the gate must open for the other object (and for the later event)
+    {'kinds': mk_kinds([(True, 2, 0)]), 'limit': None, 'order': [0, 0, 0], 'raise': {'k0e1': 'always'}},
+    {'kinds': mk_kinds([(True, 2, 0)]), 'limit': None, 'order': [0, 0, 0], 'raise': {'k0e1': 'first'}, 'again': [(0, 'k0e1')]},
 ]
 
 
